@@ -335,10 +335,11 @@ Fixpoint mm (t : bool) (e : OpExpr) (X : BT) {struct e} : BT :=
   | Diag d => drowscale d X
   | ConstantDiag c n => dcscale c X
   | Identity n b => dexpand (bcast (bsh X) b) X
-  | Zero b m n => dzero (bsh X) (if t then n else m) (nc X)
+  | Zero b m n => dzero (bcast (bsh X) b) (if t then n else m) (nc X)   (* torch.broadcast_shapes(rhs batch, self.batch_shape) *)
   | Toeplitz col => toeplitz_mm col X
   | Triangular A _ => dmm (mt t A) X
-  | Chol A _ => dmm A (fr (dmm (dtr A) X))
+  | Chol A u =>      (* upper: root._t_matmul(root._matmul(rhs)) = R^T (R X);  lower: RootLinearOperator._matmul = L (L^T X) *)
+      if u then dmm (dtr A) (fr (dmm A X)) else dmm A (fr (dmm (dtr A) X))
   | Root r | LowRankRoot r => mm false r (fr (mm true r X))
   | Kron ops | KronTriangular ops _ =>
       let B := bcast (sz_b (sz e)) (bsh X) in
